@@ -461,6 +461,11 @@ func (r *Report) replay(prop string, ob *Obligation) replayResult {
 // against a reference oracle) on the real code when the solver gave no usable model.
 func (r *Report) witness(prop string, ob *Obligation, extra map[string]any, out string) replayResult {
 	w := ob.fn.fc.Witness
+	for _, wf := range ob.fn.fc.WitnessFor {
+		if strings.Contains(ob.ID, wf[0]) {
+			w = wf[1]
+		}
+	}
 	if w == "" {
 		return replayResult{path: r.writeReplay(prop, ob.ID, extra, out)}
 	}
